@@ -22,9 +22,15 @@
 (*                         sort and index (named deviation D17).                                    *)
 (* PlanVariant = "design": every job is planned.   "impl": the contig-per-process plan may drop    *)
 (*                         jobs (D4, see JobPlan.tla) - seen from here as an arbitrary subset.      *)
+(* Mutation (negative controls for deviations that were never in the code, seeded one token away):   *)
+(*   "sort_no_reraise"         : sort_and_index does not re-raise when the sort failed at the last     *)
+(*                               temp location too: the half-written output is indexed, run goes on    *)
+(*   "worker_swallows_ioerror" : run_tagging_tasks treats an I/O error inside a task like a timed-out  *)
+(*                               region (`except OSError`): the job file is kept with records missing  *)
 EXTENDS Integers, Sequences, FiniteSets, TLC, Json, TagRecords
 
-CONSTANTS NMol,         \* molecules per pipeline / per job: 0..NMol
+CONSTANTS Mutation,     \* "none" | "sort_no_reraise" | "worker_swallows_ioerror"
+          NMol,         \* molecules per pipeline / per job: 0..NMol
           NJobs,        \* jobs of the multiprocess pipeline (job 1 is the `*` job)
           Pipelines,    \* subset of {"single", "multi"}
           PrevChoices,  \* subset of BOOLEAN: does a complete earlier run (status ok) exist at start
@@ -56,7 +62,7 @@ VARIABLES pipeline,  \* "single" | "multi"
           pc,        \* parent program counter
           status,    \* "none" | "unfinished" | "fail" | "ok"     content class of <out>.status.txt
           unsorted,  \* [st: "absent"|"open"|"closed", n, rg]      <out>.bam.unsorted (single pipeline)
-          out,       \* [st: "absent"|"partial"|"complete", n, sorted, rg (header declares the read groups)]
+          out,       \* [st: "absent"|"partial" (truncated)|"short" (readable, records missing)|"complete", n, sorted, rg]
           bai,       \* "absent" | "ok"
           w,         \* worker/job state  [j -> [pc, n]]
           planned, collected,
@@ -115,10 +121,13 @@ CloseUnsorted == /\ Step("close", "addrg") /\ unsorted' = [unsorted EXCEPT !.st 
                  /\ UNCHANGED <<pipeline, prev, size, status, out, bai, w, planned, collected, tries, crashed, crashAt, crashKind, crashJob, tempLeft>>
 AddReadGroups == /\ Step("addrg", "sort") /\ unsorted' = [unsorted EXCEPT !.rg = TRUE]    \* temp file + atomic rename
                  /\ UNCHANGED <<pipeline, prev, size, status, out, bai, w, planned, collected, tries, crashed, crashAt, crashKind, crashJob, tempLeft>>
-SortBegin     == /\ Step("sort", "sorting") /\ out' = [st |-> "partial", n |-> 0, sorted |-> TRUE, rg |-> FALSE]
+SortBegin     == /\ Step("sort", "sorting")            \* what a dying sort leaves behind: a truncated or a short but readable file
+                 /\ \E left \in {"partial", "short"} : out' = [st |-> left, n |-> 0, sorted |-> TRUE, rg |-> FALSE]
                  /\ UNCHANGED <<pipeline, prev, size, status, unsorted, bai, w, planned, collected, tries, crashed, crashAt, crashKind, crashJob, tempLeft>>
 SortFail      == /\ Step("sorting", "sort") /\ tries < 2 /\ tries' = tries + 1          \* caught, retried elsewhere
                  /\ UNCHANGED <<pipeline, prev, size, status, unsorted, out, bai, w, planned, collected, crashed, crashAt, crashKind, crashJob, tempLeft>>
+SortGiveUp    == /\ Mutation = "sort_no_reraise" /\ Step("sorting", "index") /\ tries = 2      \* third failure not re-raised
+                 /\ UNCHANGED <<pipeline, prev, size, status, unsorted, out, bai, w, planned, collected, tries, crashed, crashAt, crashKind, crashJob, tempLeft>>
 SortEnd       == /\ Step("sorting", "index") /\ out' = [st |-> "complete", n |-> unsorted.n, sorted |-> TRUE, rg |-> unsorted.rg]
                  /\ UNCHANGED <<pipeline, prev, size, status, unsorted, bai, w, planned, collected, tries, crashed, crashAt, crashKind, crashJob, tempLeft>>
 Index         == /\ Step("index", "rmunsorted") /\ bai' = "ok"
@@ -143,6 +152,7 @@ WWrite(j)  == /\ ~crashed /\ pc = "pool" /\ j \in planned /\ w[j].pc = "open" /\
               /\ w' = [w EXCEPT ![j].n = @ + 1]
               /\ UNCHANGED <<pipeline, prev, size, pc, status, unsorted, out, bai, planned, collected, tries, crashed, crashAt, crashKind, crashJob, tempLeft>>
 WClose(j)  == w[j].n = size[j] /\ WStep(j, "open", "closed")
+WSwallow(j) == Mutation = "worker_swallows_ioerror" /\ w[j].n < size[j] /\ WStep(j, "open", "closed")   \* rest of the task skipped
 WAddRG(j)  == WStep(j, "closed", "rg")
 WSort(j)   == WStep(j, "rg", "sorted")
 WIndex(j)  == WStep(j, "sorted", "indexed")
@@ -150,14 +160,15 @@ WRemoveUnsorted(j) == WStep(j, "indexed", "clean")
 WReturn(j) == WStep(j, "clean", "ret")        \* returns its path, or deletes the file and returns None when size[j] = 0
 
 Collect    == /\ Step("pool", "header") /\ \A j \in planned : w[j].pc = "ret"
-              /\ collected' = { j \in planned : size[j] > 0 }
+              /\ collected' = { j \in planned : w[j].n > 0 }
               /\ UNCHANGED <<pipeline, prev, size, status, unsorted, out, bai, w, planned, tries, crashed, crashAt, crashKind, crashJob, tempLeft>>
 HeaderBam  == /\ Step("header", "merge")
               /\ UNCHANGED <<pipeline, prev, size, status, unsorted, out, bai, w, planned, collected, tries, crashed, crashAt, crashKind, crashJob, tempLeft>>
-MergeBegin == /\ Step("merge", "merging") /\ out' = [st |-> "partial", n |-> 0, sorted |-> TRUE, rg |-> FALSE]
+MergeBegin == /\ Step("merge", "merging")
+              /\ \E left \in {"partial", "short"} : out' = [st |-> left, n |-> 0, sorted |-> TRUE, rg |-> FALSE]
               /\ UNCHANGED <<pipeline, prev, size, status, unsorted, bai, w, planned, collected, tries, crashed, crashAt, crashKind, crashJob, tempLeft>>
 MergeEnd   == /\ Step("merging", "indexmerged")
-              /\ out' = [st |-> "complete", n |-> Sum([j \in collected |-> size[j]]), sorted |-> TRUE, rg |-> TRUE]   \* merge -c keeps the @RG of the parts
+              /\ out' = [st |-> "complete", n |-> Sum([j \in collected |-> w[j].n]), sorted |-> TRUE, rg |-> TRUE]   \* merge -c keeps the @RG of the parts
               /\ UNCHANGED <<pipeline, prev, size, status, unsorted, bai, w, planned, collected, tries, crashed, crashAt, crashKind, crashJob, tempLeft>>
 IndexMerged == /\ Step("indexmerged", "rmparts") /\ bai' = "ok"
                /\ UNCHANGED <<pipeline, prev, size, status, unsorted, out, w, planned, collected, tries, crashed, crashAt, crashKind, crashJob, tempLeft>>
@@ -176,22 +187,22 @@ Crash(kind) ==
     /\ crashed' = TRUE
     /\ IF crashJob > 0 THEN UNCHANGED <<crashAt, crashKind, crashJob>>     \* the hung parent of a killed worker is killed
        ELSE crashAt' = pc /\ crashKind' = kind /\ crashJob' = 0
-    /\ status' = IF kind = "exception" /\ pipeline = "single" /\ pc = "loop" THEN "fail" ELSE status
+    /\ status' = IF kind # "kill" /\ pipeline = "single" /\ pc = "loop" THEN "fail" ELSE status
     /\ UNCHANGED <<pipeline, prev, size, pc, unsorted, out, bai, w, planned, collected, tries, tempLeft>>
 
 (* a worker raising: the exception is re-raised in the parent by imap_unordered; a worker killed:  *)
 (* multiprocessing.Pool never delivers the result, the parent waits forever until it is killed too *)
 WorkerCrash(j, kind) ==
     /\ ~crashed /\ pc = "pool" /\ j \in planned /\ w[j].pc \notin {"ret", "dead"}
-    /\ IF kind = "exception"
+    /\ IF kind # "kill"
        THEN crashed' = TRUE /\ crashAt' = "worker:" \o w[j].pc /\ crashKind' = kind /\ crashJob' = j /\ Same(w)
        ELSE w' = [w EXCEPT ![j].pc = "dead"] /\ crashAt' = "worker:" \o w[j].pc /\ crashJob' = j /\ crashKind' = kind /\ Same(crashed)
     /\ UNCHANGED <<pipeline, prev, size, pc, status, unsorted, out, bai, planned, collected, tries, tempLeft>>
 
-Kinds == {"exception", "kill"}
-SingleNext == OpenUnsorted \/ WriteMolecule \/ LoopEnd \/ CloseUnsorted \/ AddReadGroups \/ SortBegin \/ SortFail \/ SortEnd
+Kinds == {"exception", "ioerror", "kill"}       \* ioerror: an OSError (disk full, truncated read), a Python exception like any other
+SingleNext == OpenUnsorted \/ WriteMolecule \/ LoopEnd \/ CloseUnsorted \/ AddReadGroups \/ SortBegin \/ SortFail \/ SortGiveUp \/ SortEnd
               \/ Index \/ RemoveUnsorted
-WorkerNext == \E j \in Jobs : WOpen(j) \/ WWrite(j) \/ WClose(j) \/ WAddRG(j) \/ WSort(j) \/ WIndex(j) \/ WRemoveUnsorted(j) \/ WReturn(j)
+WorkerNext == \E j \in Jobs : WOpen(j) \/ WWrite(j) \/ WClose(j) \/ WSwallow(j) \/ WAddRG(j) \/ WSort(j) \/ WIndex(j) \/ WRemoveUnsorted(j) \/ WReturn(j)
 MultiNext  == Plan \/ Collect \/ HeaderBam \/ MergeBegin \/ MergeEnd \/ IndexMerged \/ RemoveParts \/ RemoveTemp \/ RemoveTempFails
 AnyCrash       == \E kind \in Kinds : Crash(kind)
 AnyWorkerCrash == \E j \in Jobs, kind \in Kinds : WorkerCrash(j, kind)
@@ -203,13 +214,13 @@ Spec == Init /\ [][Next]_vars
 (* Properties *)
 Obs == [status |-> status,
         interrupted |-> crashed /\ crashAt # "start",
-        exists |-> out.st # "absent", readable |-> out.st = "complete", sorted |-> out.sorted,
-        indexed |-> bai = "ok", complete |-> out.n = Total]
+        exists |-> out.st # "absent", readable |-> out.st \in {"short", "complete"}, sorted |-> out.sorted,
+        indexed |-> bai = "ok", complete |-> out.st = "complete" /\ out.n = Total]
 Inv_C20 == C20Clause(Obs) = "ok"
 (* the remaining half of C05: a run that finished left a sorted, indexed, re-headered output *)
 Inv_C05_Finished == pc = "done" => out.st = "complete" /\ out.sorted /\ out.rg /\ bai = "ok"
 Inv_Type == /\ status \in {"none", "unfinished", "fail", "ok"}
-            /\ out.st \in {"absent", "partial", "complete"}
+            /\ out.st \in {"absent", "partial", "short", "complete"}
             /\ status = "fail" => crashed
 
 (* scenario generation (rule 13): every crash point of the design model *)
@@ -217,7 +228,7 @@ Emit == IF crashed \/ (\E j \in Jobs : w[j].pc = "dead") \/ pc = "done"
         THEN PrintT("@@SCENARIO " \o ToJson([pipeline |-> pipeline, size |-> size, prev |-> prev,
                                              at |-> IF pc = "done" /\ ~crashed THEN "done" ELSE crashAt,
                                              kind |-> IF pc = "done" /\ ~crashed THEN (IF tempLeft THEN "rmtree_fails" ELSE "none") ELSE crashKind,
-                                             job |-> crashJob,
+                                             job |-> crashJob, left |-> out.st,
                                              k |-> IF crashJob > 0 THEN w[crashJob].n ELSE unsorted.n, tries |-> tries]))
         ELSE TRUE
 =====================================================================================================
